@@ -25,12 +25,12 @@ import (
 )
 
 type c08Q struct {
-	q    *store.FileQueue
-	ldb  *leveldb.LevelDBDatabase
-	dir  string
-	staleTail bool // tmp.data holds records BEHIND the pending ones (set by crash())
-	pend []c08Rec // mirror of the writer's channel (oldest first)
-	done []c08Rec // acknowledged by the "writer", in order
+	q         *store.FileQueue
+	ldb       *leveldb.LevelDBDatabase
+	dir       string
+	staleTail bool     // tmp.data holds records BEHIND the pending ones (set by crash())
+	pend      []c08Rec // mirror of the writer's channel (oldest first)
+	done      []c08Rec // acknowledged by the "writer", in order
 }
 
 func (x *c08Q) show() string {
